@@ -78,6 +78,9 @@ def cases(E):
     cs.append(Case(H + "label_node_contract", "any in-window address", shape_label, target=[N + "LabelNode.pc_after", N + "LabelNode.emit"]))
     for kind, ex in (("named", True), ("named", False), ("anon", True), ("internal", True), ("named-in-loop", True)):
         cs.append(Case(H + "restore_scope_export_contract", f"{kind},exports={ex}", shape_export(kind, ex), target=["a816.symbols.Resolver.restore_scope"]))
+    # the address arithmetic the label pass and the emit pass rely on (through its contract) is established here too
+    from vf.props import C04 as c04
+    cs += c04.live_bus_cases(E) + c04.address_contract_cases(E)
     return cs
 
 
